@@ -314,3 +314,31 @@ def c16_8(ctx):
         if not guarded:
             ctx.fail(f, d, '`del res[%s]` is not guarded by `%s in res`: for an absent key __delitem__ falls back to a dotted-path deletion inside branches shared with the operand' % (key, key),
                      witness="d = dictattr(a=dictattr(b=1)); d - 'a.b' must leave d unchanged")
+
+
+@obligation('C16.9', 'DEF-USE (cursor of a path walk)', 'loops that walk a key path down nested mappings in _dictattr, _dict, _tree (dictattr.__sub__ / __delitem__ / __getitem__, tree_get, tree_getitem, _tree_setitem)',
+            'd - (k1, k2, k3) and the tree functions walk a path with a cursor that is advanced by `cursor = cursor[k]`: whether the next key exists must be asked of the CURSOR (the branch reached so far), '
+            'never of the root or of another mapping - beyond depth two the root no longer has the key and the walk stops short (or goes on where it should stop)',
+            axioms=())
+def c16_9(ctx):
+    n = 0
+    for mod in ('_dictattr', '_dict', '_tree'):
+        for (m, cls, name), node in list(ctx.repo.funcs.items()):
+            if m != mod:
+                continue
+            f = Fn(ctx.repo, m, cls, name, node)
+            for loop in [x for x in ast.walk(node) if isinstance(x, ast.For) and isinstance(x.target, ast.Name)]:
+                k = loop.target.id
+                adv = [s for s in ast.walk(loop) if isinstance(s, ast.Assign) and len(s.targets) == 1 and isinstance(s.targets[0], ast.Name) and isinstance(s.value, ast.Subscript)
+                       and isinstance(s.value.value, ast.Name) and s.value.value.id == s.targets[0].id and isinstance(s.value.slice, ast.Name) and s.value.slice.id == k]
+                if not adv:
+                    continue
+                cur = adv[0].targets[0].id
+                n += 1
+                ctx.count(1, f.where(loop))
+                for c in [x for x in ast.walk(loop) if isinstance(x, ast.Compare) and len(x.ops) == 1 and isinstance(x.ops[0], (ast.In, ast.NotIn)) and isinstance(x.left, ast.Name) and x.left.id == k]:
+                    box = c.comparators[0]
+                    if isinstance(box, ast.Name) and box.id != cur:
+                        ctx.fail(f, c, 'the walk advances `%s = %s[%s]` but asks `%s` whether the next key exists: past the first level that is another mapping than the branch reached so far' % (cur, cur, k, U(c)),
+                                 witness="dictattr(a = dict(b = dict(c = 1))) - ('a', 'b', 'c') must remove the leaf")
+    ctx.at_least(3, n, 'path-walking loops with a cursor')
